@@ -109,6 +109,7 @@ type tcpPacketConn struct {
 	closedChan chan struct{}
 	closeOnce  sync.Once
 	aliveTimer *time.Timer
+	claimed    bool // set by ClearAliveTimer: the expiry no longer applies
 
 	// refs counts outstanding sharedPacketConn wrappers handed out by the mux.
 	refs atomic.Int32
@@ -141,6 +142,14 @@ func newTCPPacketConn(params tcpPacketParams) *tcpPacketConn {
 	if params.AliveDuration > 0 {
 		packet.aliveTimer = time.AfterFunc(params.AliveDuration, func() {
 			packet.params.Logger.Warn("close tcp packet conn by alive timeout")
+			// The timer may have fired just before the connection was claimed
+			// (ClearAliveTimer came too late to stop it): a claimed connection stays.
+			packet.mu.Lock()
+			claimed := packet.claimed
+			packet.mu.Unlock()
+			if claimed {
+				return
+			}
 			_ = packet.Close()
 		})
 	}
@@ -150,6 +159,7 @@ func newTCPPacketConn(params tcpPacketParams) *tcpPacketConn {
 
 func (t *tcpPacketConn) ClearAliveTimer() {
 	t.mu.Lock()
+	t.claimed = true
 	if t.aliveTimer != nil {
 		t.aliveTimer.Stop()
 	}
